@@ -68,7 +68,13 @@ CHECKS = [
      "kernel-evaluated on the translation of the CURRENT source each run (72/72 names covered on the clean tree), and a "
      "definite mismatch (the translated definition and the model differ on a named witness matrix) is a broken proof "
      "obligation naming function, both normal forms, the matrix and the two values; the case generator contains matrices of "
-     "distinct primes with random zero cells, so the search that follows finds a concrete failing input.",
+     "distinct primes with random zero cells, so the search that follows finds a concrete failing input. utils.binomial_ci "
+     "itself is regenerated too (harness/cidefs.py -> SA/Model/CIDefs.lean: the two limits as expressions over count, nobs, "
+     "z = isf(a*alpha+b) with an uninterpreted sqrt and NaN guards; C04CIDefs: modelCI_eval - the model's row evaluates to "
+     "SA.binomialCI for every input and square-root function -, modelCI_nan_iff, ci_bridge, checkCI_mismatch_sound; generated "
+     "theorem generated_c04_ci_ok): ok = the row IS the model's as data, definite mismatch = another isf argument (wrong tail), "
+     "another stacking axis or different limits at a witness (count, nobs, z); mathematically equal rewrites are `unknown` "
+     "(no rational normaliser: partial).",
      BASE_NOTE + "For the regenerated definitions the translator (its reading of NumPy indexing / np.sum axes / np.divide(where=) "
      "/ np.where, symbolic inlining of helper functions, the pass-through check of the decorator) is trusted instead of the "
      "hand-written model; it has values only (no dtypes, warnings, leading-axis bookkeeping, result types) and says `unknown` "
@@ -119,13 +125,35 @@ CHECKS = [
      "building real ConfusionMatrix objects through all four routes (int/str classes in arbitrary order, none/int/float "
      "weights, stacks with leading shapes (), (2,), (2,3), (0,)), comparing matrices, classes, one_vs_all cells, 20 per-class "
      "metrics + CIs + aliases + as_dict with the model and evaluating the Lean spec predicates on the observed values; "
-     "error branches are compared as exceptions.",
-     BASE_NOTE + "hashable class labels are mapped to Nat codes by the harness (order-preserving, so np.unique = sorted "
+     "error branches are compared as exceptions. ONE_VS_ALL AND THE CONSTRUCTION LOOP regenerated from /repo's source on every "
+     "run (harness/cmdefs.py, Python ast): (k) a symbolic run of ConfusionMatrix.one_vs_all (the per-class loop with buffer "
+     "writes and reads, the per-class blocks stacked along axis -3, and the vectorised np.diagonal / np.sum(axis=-1|-2) style) "
+     "gives the four cells of class j as expressions over FOUR generators M[j,j], rowsum_j, colsum_j, total "
+     "(SA/Model/CmDefs.lean: OExpr, value semantics on any N x N rational matrix; normal form = integer combination of the "
+     "generators, N-independent), the axis of the class index in the result and the binary flag; C05Defs proves normalize_sound "
+     "(ALL rational matrices of ANY size), modelOva_block (the model's row IS SA.oneVsAll), checkOva_ok_sound / ova_bridge (an "
+     "accepted row denotes the model's one-vs-all block at [..., j, a, b] of a binary result, hence conservation, TP on the "
+     "diagonal, P = row sum, TOP = column sum, complements, non-negativity hold of the translated code), "
+     "cellVerdict_mismatch_sound and ovaWitnesses_complete (the witnesses separate ANY two distinct normal forms); (m) the "
+     "body of _assign_from_predictions run once per assignment of (classes is None, binary, weights is None) gives a row of "
+     "data (ConsDef: inferred class list, binary default, index map, which zip member indexes the ROW / the COLUMN, += or =, "
+     "initial value, default weight, length check) with a code-shaped denotation; modelCons_run (the model's row IS "
+     "SA.fromPredictions), cons_bridge / cons_bridge_entries (bridge to C05_entry), checkCons_mismatch_sound. The generated "
+     "theorems generated_c05_ova_ok / generated_c05_cons_ok are kernel-evaluated on the translation of the CURRENT source each "
+     "run; a definite mismatch is a broken proof obligation naming function, cell, both forms and a witness input, and the "
+     "case generators (stacks of distinct primes with random zeros, weighted repeated pairs) then supply a failing input.",
+     BASE_NOTE + "For the regenerated one_vs_all / construction rows the translator harness/cmdefs.py (its reading of `...` "
+     "indexing, np.sum axes, np.diagonal, buffer writes / reads / views, np.stack, the zip order and the index-map "
+     "comprehension) is trusted instead of the hand-written model; it has values only (no dtypes, leading axes beyond `...`, "
+     "warnings, result types; WHICH sample a weight belongs to only through the zip position) and says `unknown` (evidence "
+     "only, never an alarm) for anything else (np.add.at / bincount / reduceat / Kahan vectorisations, caching, a sum without "
+     "axis). hashable class labels are mapped to Nat codes by the harness (order-preserving, so np.unique = sorted "
      "dedup); pandas .loc and numpy fancy indexing by documented meaning; the leading shape X is handled member-wise; "
      "float-weight sums: every cell within 4 x wsumEps = ((k-1)u/(1-(k-1)u)) sum|w| of the exact total (C05_weighted_fl_error "
      "under the standard model of floating-point arithmetic, driver op wsumbound, clause float-bound, observed maximum 0.997 x); "
      "quotients 1e-12.",
-     "Lean 4 proof about a hand-written model + differential correspondence check", "DESIGN.md §5 C05"),
+     "Lean 4 proof about a hand-written model + differential correspondence check + one_vs_all and the construction loop "
+     "regenerated from the source by a translator and kernel-checked each run", "DESIGN.md §5 C05"),
  chk("C08",
      "Lean theorems: C08_swap_cm / C08_swap_rates (at every threshold incl. +-inf the matrix of swap() is the original with "
      "rows and columns exchanged, hence FPR/TPR/TOPR <-> FNR/TNR/TONR), C08_negate_cm (negated scores + flipped score_class: "
